@@ -18,10 +18,10 @@ The property to break:
   Quantifier: {p['quantifier']['text']}
 
 Task: write a small, realistic source change to the library (the kind of slip a maintainer could make in a refactor or optimisation: an off-by-one, a wrong index/variable, a dropped rebind, a changed comparison, a cached value reused, a boundary case lost...) such that
-  1. the package still imports and the existing test suite still passes: run `cd {wt} && PYTHONPATH={wt} /venv/bin/python -m pytest -q -p no:cacheprovider --timeout=2400 -n 3 vectorizers/tests` ONCE before and ONCE after your change and compare (a couple of tests fail even without any change - `test_wasserstein_based_vectorizer_bad_params[lil-LOT_exact-*]`; those do not count). The full suite takes 10-40 minutes depending on machine load; run targeted test files while iterating;
+  1. the package still imports and the existing test suite still passes. On the unchanged library the full suite gives 493 passed, 2 failed (`test_wasserstein_based_vectorizer_bad_params[lil-LOT_exact-*]` fail even without any change; those do not count) - you do NOT need to re-establish that. The full suite takes 25-60 minutes on this loaded machine, so do NOT run it: instead run, after your change, every test file / test function that exercises the code you touched (e.g. `cd {wt} && PYTHONPATH={wt} /venv/bin/python -m pytest -q -p no:cacheprovider --timeout=2400 vectorizers/tests/test_common.py -k "<keyword>"`, and the other files under vectorizers/tests that import the module you changed; use `grep -rn` over vectorizers/tests to find them) and make sure they all still pass; the full suite will be run by someone else afterwards and your change is discarded if any test fails, so be careful about which tests could notice;
   2. the property above is violated, but only in a situation that needs something specific to manifest - e.g. a particular multi-step sequence of operations, an unusual-but-valid input (empty item, repeated token, a boundary count, a particular parameter combination), a buffer/threshold being crossed, a particular chunk/thread layout, or two cooperating sites that each look fine alone. NOT something that ordinary default use would expose at once;
   3. you provide a demonstration: a small standalone script `{wt}/demo.py` (run as `PYTHONPATH={wt} /venv/bin/python demo.py`) that exits 0 and prints PASS on the unchanged library and exits 1 and prints FAIL with your change applied. The demo must test the *property as stated* (not an implementation detail).
 
 Deliver, in {wt}: `patch.diff` (output of `git diff` for the library change only, not including demo.py), `demo.py`, and a short `NOTES.md` saying which file/function you changed, why the tests do not notice, and what exactly is needed for the violation to manifest. Leave the change applied in the worktree. Prefer a change in the core code paths the property is about ({files}). One change only; keep it under ~15 changed lines. {hint}
 
-In your final message, report: the diff, the demo output before/after, and the test-suite result before/after (number passed/failed).""")
+In your final message, report: the diff, the demo output before/after, and which tests you ran after the change with their result.""")
